@@ -22,4 +22,16 @@ def chebLoop (test : Nat → Bool) (lo : Nat) (prev : Bool) : Nat → Option Nat
 /-- Chebyshev: orders `2 .. expansion-1` -/
 def chebyshevLoop (test : Nat → Bool) (expansion : Nat) : Option Nat := chebLoop test 2 false (expansion - 2)
 
+/-- Davidson–Liu outer loop (`davidsonliu`, `davidsonliu_fqe`): iteration `k` works in a subspace of
+    `size0 + k * nroots` vectors; the loop runs while that size is at most `limit`; it returns at the first
+    iteration whose Ritz values moved by less than epsilon (`conv k`); the comparison value before the
+    first iteration is `inf`, so iteration 0 never converges.  `none` = ConvergenceError (or, for the
+    FQE variant, falling out of the loop). -/
+def davidsonLoop (conv : Nat → Bool) (size0 nroots limit : Nat) : Nat → Nat → Option Nat
+  | 0, _ => none
+  | fuel+1, k =>
+    if size0 + k * nroots ≤ limit then
+      (if k ≠ 0 ∧ conv k then some k else davidsonLoop conv size0 nroots limit fuel (k + 1))
+    else none
+
 end Model
